@@ -1216,6 +1216,27 @@ pub struct TermProgram {
     pub value_blocks: u8,
     pub drop_mode: DropMode,
     pub schedule: Schedule,
+    /// extra reader threads, all pinned to ONE cpu (so all but one of them are descheduled at
+    /// arbitrary instructions of get()), reading the writers' keys in a loop
+    #[serde(default)]
+    pub pinned_readers: u8,
+    /// writers sleep this long after every call (values get flushed and offloaded in between)
+    #[serde(default)]
+    pub writer_pause_us: u16,
+}
+
+/// Pins the calling thread to the last cpu the process may run on.
+fn pin_current_thread_to_one_cpu() {
+    unsafe {
+        let mut allowed: libc::cpu_set_t = std::mem::zeroed();
+        if libc::sched_getaffinity(0, std::mem::size_of::<libc::cpu_set_t>(), &mut allowed) != 0 {
+            return;
+        }
+        let Some(cpu) = (0..libc::CPU_SETSIZE as usize).rev().find(|cpu| libc::CPU_ISSET(*cpu, &allowed)) else { return };
+        let mut one: libc::cpu_set_t = std::mem::zeroed();
+        libc::CPU_SET(cpu, &mut one);
+        libc::sched_setaffinity(0, std::mem::size_of::<libc::cpu_set_t>(), &one);
+    }
 }
 
 pub fn term_program_strategy() -> BoxedStrategy<TermProgram> {
@@ -1237,7 +1258,33 @@ pub fn term_program_strategy() -> BoxedStrategy<TermProgram> {
             p
         })
     });
-    prop_oneof![3 => term_program_general(), 1 => intermittent].boxed()
+    // one program in eight: a slow writer (values are flushed and offloaded between its calls)
+    // next to 6-12 readers pinned to one cpu and 1-2 flush() callers: readers arrive at a record
+    // at arbitrary moments of its retirement, every read ends within milliseconds, so every
+    // flush() has to return
+    let pinned = term_program_general().prop_flat_map(|p| {
+        (Just(p), 6u8..13, 1u8..4, 60u16..200, 2000u16..12000, 1u8..3, 0u8..3).prop_map(|(mut p, pinned, keys, ops, pause, flushers, vb)| {
+            p.data_blocks = 500;
+            p.fail_from = 0;
+            p.fail_count = 0;
+            p.fail_period = 0;
+            p.fail_heals_after_ms = 0;
+            p.keys = keys;
+            p.value_blocks = vb;
+            p.writers = 1;
+            p.writer_ops = ops;
+            p.writer_pause_us = pause;
+            p.readers = 0;
+            p.flushers = flushers;
+            p.pinned_readers = pinned;
+            p.sweeper = false;
+            p.cache = false;
+            p.drop_mode = DropMode::Quiescent;
+            p.schedule = Schedule::Free;
+            p
+        })
+    });
+    prop_oneof![6 => term_program_general(), 2 => intermittent, 1 => pinned].boxed()
 }
 
 fn term_program_general() -> BoxedStrategy<TermProgram> {
@@ -1268,6 +1315,8 @@ fn term_program_general() -> BoxedStrategy<TermProgram> {
             value_blocks,
             drop_mode,
             schedule,
+            pinned_readers: 0,
+            writer_pause_us: 0,
         })
         .boxed()
 }
@@ -1307,7 +1356,7 @@ pub fn run_term_program(p: &TermProgram) -> TermOutcome {
     let inside = Arc::new(AtomicU64::new(0));
     let max_inside = Arc::new(AtomicU64::new(0));
     let stop = Arc::new(AtomicBool::new(false));
-    let nthreads = p.writers as usize + p.readers as usize + p.flushers as usize;
+    let nthreads = p.writers as usize + p.readers as usize + p.flushers as usize + p.pinned_readers as usize;
     let barrier = Arc::new(Barrier::new(nthreads + 1));
     let key = |i: usize| format!("tk{:03}", i).into_bytes();
     let mut handles = Vec::new();
@@ -1318,9 +1367,13 @@ pub fn run_term_program(p: &TermProgram) -> TermOutcome {
     for w in 0..p.writers as usize {
         let (store, barrier, calls, inside, max_inside) = (store.clone(), barrier.clone(), calls.clone(), inside.clone(), max_inside.clone());
         let (nkeys, ops, vb, sweeper) = (p.keys as usize, p.writer_ops as usize, p.value_blocks as usize, p.sweeper);
+        let pause = p.writer_pause_us as u64;
         handles.push(std::thread::spawn(move || {
             barrier.wait();
             for i in 0..ops {
+                if pause > 0 {
+                    std::thread::sleep(std::time::Duration::from_micros(pause));
+                }
                 let k = key((i * 7 + w * 3) % nkeys);
                 let _g = env::watch("C18 writer call");
                 enter(&inside, &max_inside);
@@ -1399,6 +1452,23 @@ pub fn run_term_program(p: &TermProgram) -> TermOutcome {
                 calls.fetch_add(1, Ordering::Relaxed);
                 n += 1;
                 std::thread::yield_now();
+            }
+        }));
+    }
+    for r in 0..p.pinned_readers as usize {
+        let (store, barrier, calls, inside, max_inside, stop) = (store.clone(), barrier.clone(), calls.clone(), inside.clone(), max_inside.clone(), stop.clone());
+        let nkeys = p.keys as usize;
+        handles.push(std::thread::spawn(move || {
+            pin_current_thread_to_one_cpu();
+            barrier.wait();
+            let mut i = r;
+            while !stop.load(Ordering::Acquire) && i < 4_000_000 {
+                let _g = env::watch("C18 pinned reader call");
+                enter(&inside, &max_inside);
+                let _ = store.get(&key(i % nkeys));
+                inside.fetch_sub(1, Ordering::SeqCst);
+                calls.fetch_add(1, Ordering::Relaxed);
+                i += 1;
             }
         }));
     }
